@@ -128,6 +128,20 @@ class VecFold(Fold):
             for d in s["decls"]:
                 if self.is_vec_type(d.get("type") or ""):
                     if d.get("init") is not None:
+                        i0 = unwrap(d["init"])
+                        while i0.get("k") in ("cast",) or (i0.get("k") == "construct" and len(i0.get("args", [])) == 1 and self.is_vec_type((unwrap(i0["args"][0]).get("type") or ""))):
+                            i0 = unwrap(i0["sub"] if i0.get("k") == "cast" else i0["args"][0])
+                        cargs = [a_ for a_ in i0.get("args", []) if "allocator" not in (unwrap(a_).get("type") or "")] if i0.get("k") == "construct" else []
+                        if i0.get("k") == "construct" and self.is_vec_type(i0.get("type") or "") and len(cargs) in (0, 1, 2) \
+                                and not any(self.is_vec_type(unwrap(a_).get("type") or "") for a_ in cargs) \
+                                and not any(unwrap(a_).get("k") in ("initlist", "stdinitlist") for a_ in cargs):
+                            # vector<T> v; v(n); v(n, value)
+                            i0 = dict(i0, args=cargs)
+                            fill = self.ev(i0["args"][1], env) if len(i0["args"]) == 2 else sp.Integer(0)
+                            if len(i0["args"]) >= 1:
+                                self.ev(i0["args"][0], env)
+                            env[d["decl"]] = EVec(fill) if not isinstance(fill, (tuple, sp.Matrix, EVec)) else EVec(F("at")(S(d["name"] + "?"), K))
+                            continue
                         v = self.ev(d["init"], env)
                         env[d["decl"]] = self.wrap(v, d["name"])
                     else:
@@ -237,7 +251,10 @@ class VecFold(Fold):
             if d is not None:
                 return self.index(env[d], [self.ev(args_n[1], env)], n)
         # unknown callee that receives a tracked vector by (non-const) reference or its iterators
+        n_inl = len(self.inlined)
         v = super().do_call(n, env)
+        if len(self.inlined) > n_inl and self.inlined[n_inl][1] is n:
+            return v                       # folded into the caller: its effects on the vectors are already modelled
         if n["k"] in ("call", "mcall"):
             for a in args_n:
                 d = self.vec_decl_of(a, env)
